@@ -172,14 +172,36 @@ impl DeriveShape for SelectDef {
         } = self;
         let mut narrowed_shape =
             NarrowedShape::new_with_pos(Vec::with_capacity(tuple.len() + 1), self.pos.clone());
+        // An arm that can be anything makes the select anything. Merged in
+        // with the others it would count as a duplicate of whichever
+        // candidate came before it.
+        let mut open = false;
+        let is_open = |shape: &Shape| {
+            matches!(
+                shape,
+                Shape::Hole(_)
+                    | Shape::Narrowed(NarrowedShape {
+                        pos: _,
+                        types: NarrowingShape::Any,
+                    })
+            )
+        };
         for (_, _constraint, expr) in tuple {
             let shape = expr.derive_shape(symbol_table);
+            open = open || is_open(&shape);
             narrowed_shape.merge_in_shape(shape, symbol_table);
         }
         // The default is one of the values the select can have.
         if let Some(expr) = default {
             let shape = expr.derive_shape(symbol_table);
+            open = open || is_open(&shape);
             narrowed_shape.merge_in_shape(shape, symbol_table);
+        }
+        if open {
+            return Shape::Narrowed(NarrowedShape {
+                pos: self.pos.clone(),
+                types: NarrowingShape::Any,
+            });
         }
         Shape::Narrowed(narrowed_shape)
     }
